@@ -103,7 +103,7 @@ func checkC08(r *Report, known []Finding) {
 		"Split: n in {-1,0,1,2,3,5} over recorded FindAllStringIndex results; Replace*: recorded FindIndicesAt/FindSubmatchAt tables at every offset fed to the Lean replace-loop model " +
 		"(literal, function and template replacement) — model must equal the API; a case is a violation only if the API also differs from regexp; " +
 		"non-trivial = template contains '$' / at least one match; distinct by full case"
-	nE, nP, nh := 3000, 500, 5
+	nE, nP, nh := 8000, 1500, 5
 	if r.Tier == "thorough" {
 		nE, nP, nh = 30000, 5000, 8
 	}
